@@ -1,5 +1,19 @@
 pub mod asm;
 pub mod sbuf;
+pub mod ackfreq;
+pub mod ackscan;
+pub mod cidq;
+pub mod cidstate;
+pub mod pathresp;
+pub mod pendingacks;
+pub mod frame;
+pub mod header;
+pub mod tparams;
+pub mod c14;
+pub mod c12;
+pub mod cindex;
+pub mod dgram;
+pub mod mtud;
 pub mod wire;
 
 use crate::{Rng, Runner};
@@ -14,6 +28,23 @@ pub fn lookup(name: &str) -> Option<(&'static str, GenFn)> {
         "dedup" => (wire::DEDUP_RULE, wire::dedup as GenFn),
         "sbuf" => (sbuf::SBUF_RULE, sbuf::sbuf as GenFn),
         "asm" => (asm::ASM_RULE, asm::asm as GenFn),
+        "cidq" => (cidq::CIDQ_RULE, cidq::cidq as GenFn),
+        "cidstate" => (cidstate::CIDSTATE_RULE, cidstate::cidstate as GenFn),
+        "ackfreq" => (ackfreq::ACKFREQ_RULE, ackfreq::ackfreq as GenFn),
+        "ackscan" => (ackscan::ACKSCAN_RULE, ackscan::ackscan as GenFn),
+        "pathresp" => (pathresp::PATHRESP_RULE, pathresp::pathresp as GenFn),
+        "pendingacks" => (pendingacks::PENDINGACKS_RULE, pendingacks::pendingacks as GenFn),
+        "frame" => (frame::FRAME_RULE, frame::frame as GenFn),
+        "tparams" => (tparams::TPARAMS_RULE, tparams::tparams as GenFn),
+        "header" => (header::HEADER_RULE, header::header as GenFn),
+        "token" => (c14::TOKEN_RULE, c14::token as GenFn),
+        "bloomlog" => (c14::BLOOMLOG_RULE, c14::bloomlog as GenFn),
+        "tokencache" => (c14::TOKENCACHE_RULE, c14::tokencache as GenFn),
+        "sentpk" => (c12::SENTPK_RULE, c12::sentpk as GenFn),
+        "cc" => (c12::CC_RULE, c12::cc as GenFn),
+        "cindex" => (cindex::CINDEX_RULE, cindex::cindex as GenFn),
+        "dgram" => (dgram::DGRAM_RULE, dgram::dgram as GenFn),
+        "mtud" => (mtud::MTUD_RULE, mtud::mtud as GenFn),
         _ => return None,
     })
 }
